@@ -276,7 +276,15 @@ def computeDeltaEstimate [Zero R] [One R] [Add R] [Sub R] [Mul R] [Div R] [Neg R
 def meshSize [Mul R] [Div R] [NatCast R] [Analytic R] (epsError deltaError : R) (total : Nat) : R :=
   epsError / Analytic.sqrt ((total : R) * Analytic.log (((12 : Nat) : R) / deltaError) / ((2 : Nat) : R))
 
-/-- `_get_domain`, with `L = compute_safe_domain_size(...)` supplied (it is an RDP-accountant call) -/
+/-- `compute_safe_domain_size` (`analysis/prv/domain.py`).  The RDP accountant is the subject of C06
+and enters as data: `epsAll` is its ε for the WHOLE history `[(σ_j, q_j, n_j)]` at `δ_err/4`,
+`epsEach j` its ε for one step of mechanism `j` at `δ_err/(8·Σn)`.  `L = max(max(epsAll, epsEach…),
+eps_error) + 3`, with Python's `max(a, b) = b if b > a else a`. -/
+def safeDomainSize [Add R] [NatCast R] [LT R] [DecidableLT R] (epsAll : R) (epsEach : List R) (epsError : R) : R :=
+  let m := epsEach.foldl (fun acc e => if acc < e then e else acc) epsAll
+  (if m < epsError then epsError else m) + ((3 : Nat) : R)
+
+/-- `_get_domain`, with `L = compute_safe_domain_size(...)` supplied (see `safeDomainSize`) -/
 def getDomain [Zero R] [Add R] [Sub R] [Mul R] [Div R] [Neg R] [NatCast R] [IntCast R] [LE R] [DecidableLE R]
     [Analytic R] (tol : R) (L epsError deltaError : R) (total : Nat) : Except Err (Dom R) :=
   createAligned tol (-L) L (meshSize epsError deltaError total)
